@@ -17,7 +17,7 @@ TRUSTED = ["native_decide on the finite certificate of the closed system (WV.Pro
            "autobahn WebSocket framing; the mailbox server is the installed wormhole_mailbox_server (real protocol objects, in-memory DB)",
            "Dilator stub: dilate() is not called in this world (C17 covers dilation shutdown)"]
 RULE = ("guided random schedules of the mailbox World (profiles: set/allocate/input code entry, matching or mismatching "
-        "peer, lonely, welcome error, crowded nameplate, initial connection failure, late peer, frequent drops; message "
+        "peer, lonely, welcome error, crowded nameplate, initial connection failure, late peer, frequent drops, a third participant whose messages the mailbox relays; message "
         "duplication and reordering; close() at any time); every step of client 0 is compared with the Lean model "
         "(outcome, 13 machine states, commands, app events); non-trivial = the run got beyond code entry and exchanged "
         "at least one server frame; distinct = distinct canonical traces")
